@@ -71,18 +71,26 @@ def steering_history(cfg, seed):
 class GlobSeam:
     """stands in for the `glob` module inside wannierberri.run_grid: the listing order is a choice point"""
 
-    def __init__(self, chooser):
+    def __init__(self, chooser, root=None):
         self.chooser = chooser
         self.orders = []
+        self.root = os.path.abspath(root) if root else None
 
-    def glob(self, pattern, **kw):
-        files = sorted(_glob.glob(pattern, **kw))
+    def _permute(self, files, what):
         n = len(files)
-        perms = list(itertools.permutations(range(n)))
+        if n <= 4:
+            perms = list(itertools.permutations(range(n)))
+        else:       # a whole-directory listing (only reached if run() is refactored to list the directory itself)
+            perms = [tuple(range(n)), tuple(reversed(range(n)))] + [tuple(np.roll(np.arange(n), -r)) for r in (1, n // 2)]
         costs = [sum(1 for i, p in enumerate(perm) if p != i) for perm in perms]   # 0 for the sorted order
-        c = self.chooser.choose(len(perms), costs=costs, label=f"listing({n} files)")
-        self.orders.append(list(perms[c]))
-        listed = [files[i] for i in perms[c]]
+        c = self.chooser.choose(len(perms), costs=costs, label=f"{what}({n} files)")
+        self.orders.append([int(i) for i in perms[c]])
+        return [files[i] for i in perms[c]]
+
+    def glob(self, pattern, *a, **kw):
+        files = sorted(_glob.glob(pattern, *a, **kw))
+        n = len(files)
+        listed = self._permute(files, "listing")
         # second environment answer: has the directory been copied / restored without preserving times?  Then the
         # modification times follow the order in which the copy created the files (= the listing order), not the
         # order in which run() wrote them.  (default: times untouched)
@@ -94,6 +102,9 @@ class GlobSeam:
                     os.utime(f, (base + 10.0 * pos, base + 10.0 * pos))
                 self.orders[-1] = self.orders[-1] + ["mtimes_follow_listing"]
         return listed
+
+    def iglob(self, pattern, *a, **kw):
+        return iter(self.glob(pattern, *a, **kw))
 
     def __getattr__(self, name):
         return getattr(_glob, name)
@@ -109,15 +120,24 @@ def run_segment(cfg, seed, hist, mode, d, adpt_num_iter, restart, chooser=None, 
               symmetrize=cfg["irred"], parallel=False, fout_name=os.path.join(d, "res"),
               file_Klist_path=os.path.join(d, "klist"), restart=restart, restart_iteration=restart_iteration)
     kw["allow_restart" if mode == "allow_restart" else "dump_results"] = True
-    seam = GlobSeam(chooser) if chooser is not None else None
-    old = run_grid.glob
+    seam = GlobSeam(chooser, root=os.path.join(d, "klist")) if chooser is not None else None
+    saved_attrs = {}
     if seam is not None:
-        run_grid.glob = seam
+        # run_grid's own binding of the listing function: the module `glob` (current code) or a function imported from it
+        for name in ("glob", "iglob"):
+            cur = getattr(run_grid, name, None)
+            if cur is _glob:
+                saved_attrs[name] = cur
+                setattr(run_grid, name, seam)
+            elif callable(cur):
+                saved_attrs[name] = cur
+                setattr(run_grid, name, getattr(seam, name))
     del refine.SNAPSHOTS[:]
     try:
         res = wb.run(system, grid, {"scr": calc}, **kw)
     finally:
-        run_grid.glob = old
+        for name, cur in saved_attrs.items():
+            setattr(run_grid, name, cur)
     LAST_SNAPSHOTS[:] = list(refine.SNAPSHOTS)
     return np.array(res.results["scr"].data), (seam.orders if seam else [])
 
